@@ -1,5 +1,5 @@
 import time
-from . import bits, slices
+from . import bits, slices, cksum
 import z3
 from pyvc.values import ClsN
 from pyvc import runtime
@@ -10,6 +10,8 @@ def register(reg):
   reg.module_globals[bits.F]=bits.module_globals
   for c in bits.contracts()+bits.contracts2()+slices.contracts(): reg.add(c)
   reg.module_globals[slices.H]={'b1':ClsN('Bits',z3.IntVal(1))}
+  for c in cksum.contracts(): reg.add(c)
+  reg.module_globals.update(cksum.module_globals())
 
 def extra_checks(prop,tier,seed,repo,reg,known):
   """module-level tables: complete concrete execution of the real defining statements."""
